@@ -31,6 +31,7 @@ import time
 from . import build, checks
 
 VERIF = build.VERIF
+REPLAYS = os.environ.get("VERIF_REPLAY_DIR") or os.path.join(VERIF, "replays")
 S = os.path.join(VERIF, "schemas")
 
 
@@ -470,7 +471,7 @@ def check(pid, tier, seed):
     never_multi = sorted(s for s in gen_sites if s not in seen_multi)
     wall = time.time() - t0
     new, known = [], []
-    os.makedirs(os.path.join(VERIF, "replays"), exist_ok=True)
+    os.makedirs(REPLAYS, exist_ok=True)
     by_sig = {}
     for v in viols:
         key_sites = v.get("minimal_sites") or v.get("sites") or []
@@ -482,7 +483,7 @@ def check(pid, tier, seed):
             by_sig[sig] = v
     for sig, v in sorted(by_sig.items()):
         safe = "".join(ch if ch.isalnum() else "_" for ch in sig)[:70]
-        path = os.path.join(VERIF, "replays", "C25-%s.json" % safe)
+        path = os.path.join(REPLAYS, "C25-%s.json" % safe)
         case = {"property": "C25", "combo": v["combo"], "map": v["map"], "sites": v.get("minimal_sites") or v.get("sites"), "inproc": bool(v.get("inproc"))}
         json.dump({"property": "C25", "seed": seed, "violation": {"property": "C25", "oracle": "output-differs", "signature": sig,
                                                                    "msg": "output file %s differs from the canonical-order reference: %s" % (v["file"], v["detail"])},
